@@ -57,6 +57,20 @@ check("C08",
       "heartbeat_merge (iff + value) and heartbeat_reduce call (fold equality, normal form, idempotence on the recorded second application, coverage) over an exhaustive small grid plus random lists.",
       "Trusted: TLC, projection to half-tick integers (fractional pulsetimes are multiples of half a tick).",
       "TLA+ relational spec + TLC model checking of its theorems + TLC validation of recorded I/O", "DESIGN.md §6 C08")
+check("C09",
+      "spec/AwIntervals.tla states intersection and union as relations on unit cells / closed point sets; TLC checks that transcriptions of the two-pointer sweep (with the third-party "
+      "Timeslot.intersection) and of period_union's merge satisfy them for every pair of small lists, and judges every recorded call of the real functions (inputs, output, inputs after the call) "
+      "over all pairs of small layouts plus random larger ones, shuffled.",
+      "Trusted: TLC; projection to ticks (1/10/1000 ms per tick); small-scope: exhaustive for <= 2 events per list on the grid, sampled beyond.",
+      "TLA+ relational spec + TLC model checking of algorithm transcriptions + TLC validation of recorded I/O", "DESIGN.md §6 C09")
+check("C10",
+      "FloodClause (non-overlap, positive length, coverage, per-label coverage, short gaps closed, long gaps intact, nothing new outside short gaps, input unchanged) is checked by TLC on a transcription "
+      "of the pairwise walk with neighbour mutation and on every recorded call of the real flood over chains of up to 4 events, shuffled, pulsetimes 0..3 ticks.",
+      "Trusted: as C09.", "TLA+ relational spec + TLC model checking of the algorithm transcription + TLC validation of recorded I/O", "DESIGN.md §6 C10")
+check("C15",
+      "UnionNoOverlapClause (first list intact, pieces of each second-list event cover exactly its part not covered by the first list, no overlap, coverage = union, inputs unchanged) is checked by TLC on a "
+      "transcription of the two-index merge and on every recorded call of the real union_no_overlap over all pairs of small sorted lists plus random 3-event lists.",
+      "Trusted: as C09.", "TLA+ relational spec + TLC model checking of the algorithm transcription + TLC validation of recorded I/O", "DESIGN.md §6 C15")
 
 
 def build():
